@@ -342,6 +342,9 @@ def make_graph_from_spec(graphtype, args):
     assert parsed['graphtype'] == graphtype
     try:
         return obtain_graph(parsed)
+    except OverflowError as e:
+        # e.g. 'gnm 9223372036854775808 0': a size that is not even a valid index
+        raise ValueError("The graph is too large to be built ({})".format(e)) from e
     except FileNotFoundError as e:
         validchoices = sorted(formats[graphtype] +
                               list(constructions[graphtype].keys()))
